@@ -18,20 +18,25 @@ RULE = ('numeric fields: well-formed specs drawn from the grammar [+] [$$|**|**$
         'non-zero value; string fields !, &, \\ n blanks \\ (n = 0..30) with strings of length 0..255 over all byte '
         'values; multi-field formats (1..5 fields, literals, _ escapes, both field kinds) with 0..12 arguments '
         '(cycling, trailing separator, type mismatches) printed to a text file; junk format strings over the field '
-        'alphabet (correspondence and no-host-exception only)')
+        'alphabet (correspondence and no-host-exception only); histories on bare variables and array elements of the '
+        'three numeric types (values as above, 40 % forced negative): assign, PRINT USING the same variable 1..3 times in '
+        'one statement, then 1..2 later statements with the same or another field to the screen, PRINT#1,USING or '
+        'LPRINT USING, reading the bytes back (MKI$/MKS$/MKD$) after every statement')
 EXPLANATION = ('theorems (PcbV.Props.C08): field_width (output length = field length, or % ++ full representation, the '
                'latter iff the representation is longer than the field), sign_dollar_star_placement (+ sign_characters, '
                'sign_mode_of_spec), parser_consumes (every well-formed spec followed by text that cannot extend it parses '
                'to exactly its text with the declared positions), parse_consumes_prefix (any input), string_parse_spec / '
                'string_parse_unclosed / string_field_spec, too_many_positions, fixed_body_characters / fixed_body_no_comma, '
-               'scientific_digit_count_partial, single_field_cycles; three counterexample theorems on models of the '
+               'scientific_digit_count_partial, single_field_cycles, repeated_operand; three counterexample theorems on models of the '
                'unrepaired to_str_scientific / to_str_fixed; that the digits are the correctly rounded ones is inherited '
                'from C07 (oracle only); correspondence: the bytes PRINT USING writes to the screen / to a file through a '
                'real Session against PcbV.Using.printUsing; oracle: width/% rule with an independent fit test, placement '
                'of fill, sign, $, commas, point, decimals count, exponent, trailing sign parsed from the output, shown '
                'digits within half a unit of the last shown place (+ one unit of the 7th/16th significant digit) of the '
                'exact stored value, string field rules, and composition of multi-field/cycling output from single-field '
-               'outputs')
+               'outputs; for operands that are variables / array elements: the text equals what the same number prints as '
+               'an expression, however often it was printed before, and the stored bytes are unchanged after every '
+               'PRINT / PRINT# / LPRINT USING (formatting never modifies its operand)')
 TRUSTED_BASE = ['model PcbV.Model.Using (+ PcbV.Model.Decimal, PcbV.Model.Mbf) is a hand transcription of formatter.py '
                 'StringField/NumberField/_print_using and numbers.py to_str_fixed/to_str_scientific']
 ASSUMPTIONS = ['arguments are evaluated before formatting (errors raised while evaluating an argument expression are '
@@ -270,6 +275,20 @@ class Impl(object):
     def __init__(self):
         self.dir = tempfile.mkdtemp(prefix='pcbv_c08_')
         self.s = basic.new_session(devices={'C': self.dir}, current_device='C')
+        # arrays whose elements serve as PRINT USING operands (run_variables)
+        basic.safe_exec(self.s, b'DIM QS!(5),QD#(3,3),QI%(4)')
+
+    def assign(self, ref, t, b):
+        """store the exact byte pattern in a variable / array element"""
+        return basic.safe_exec(self.s, ('%s=%s' % (ref, arg_expr(0, t, b))).encode())
+
+    def readback(self, ref, t):
+        """the bytes the variable / array element holds now"""
+        fn = {'i': 'MKI$', 's': 'MKS$', 'd': 'MKD$'}[t]
+        out = basic.safe_exec(self.s, ('R$=%s(%s)' % (fn, ref)).encode())
+        if out:
+            return out
+        return bytes(self.s.get_variable('R$'))
 
     def close(self):
         try:
@@ -278,13 +297,17 @@ class Impl(object):
             pass
         shutil.rmtree(self.dir, ignore_errors=True)
 
-    def run(self, fmt, args, trailing, via_file, seps=None):
-        """canonical reply: 'ok <hex of text> <newline 0|1>' / 'err <n> <hex of text written before>'"""
+    def run(self, fmt, args, trailing, via_file, seps=None, refs=None, lprint=False):
+        """canonical reply: 'ok <hex of text> <newline 0|1>' / 'err <n> <hex of text written before>';
+        refs: operand texts to use instead of the CVI/CVS/CVD expressions (bare variables, array elements);
+        lprint: LPRINT USING (the printer is not captured: reply 'ok - 1' unless an error is reported)"""
         s = self.s
         s.set_variable('F$', bytes(fmt))
         exprs = []
         for i, (t, b) in enumerate(args):
-            if t == 't':
+            if refs is not None and refs[i] is not None:
+                exprs.append(refs[i])
+            elif t == 't':
                 s.set_variable('S%d$' % i, bytes(b))
                 exprs.append('S%d$' % i)
             else:
@@ -294,6 +317,14 @@ class Impl(object):
             body += e
             if i + 1 < len(exprs) or trailing:
                 body += (seps[i] if seps else ';')
+        if lprint:
+            out = basic.safe_exec(s, ('LPRINT ' + body).encode())
+            if b'<<EXC' in out:
+                return 'exc ' + out.decode('latin-1')
+            err = self._err(out)
+            if err is not None:
+                return 'err %d -' % err
+            return 'ok - 1' if not out else 'odd ' + mbf.hx(out)
         if via_file:
             out = basic.safe_exec(s, ('OPEN "O",1,"T.TXT":PRINT#1,' + body).encode())
             out2 = basic.safe_exec(s, b'CLOSE')
@@ -655,6 +686,114 @@ def run_multi(ctx, impl, n):
     ctx.compare(cases, outs, lines, 'multi')
 
 
+VARS = {'s': ['XS!', 'QS!(2)', 'QS!(0)', 'QS!(5)'], 'd': ['XD#', 'QD#(1,2)', 'QD#(3,0)'], 'i': ['XI%', 'QI%(3)', 'QI%(0)']}
+
+
+def compose_alone(impl, cache, fmt_field, arg, copies, trailing):
+    """what `copies` operands equal to `arg` must print with the one-field format: the text the field prints for
+    this number given as an EXPRESSION (CVI/CVS/CVD), repeated — where a number comes from and how often it has
+    been printed before must not matter"""
+    key = (fmt_field, arg)
+    if key not in cache:
+        r = impl.run(fmt_field, [arg], False, True)
+        k, text, extra = parse_reply(r)
+        cache[key] = text if k == 'ok' else None
+    if cache[key] is None:
+        return None
+    return 'ok %s %d' % (mbf.hx(cache[key] * copies), 0 if trailing else 1)
+
+
+def variable_history(impl, h, cache):
+    """run one history; returns (outs, model lines, list of (key, what))
+    h: dict(t, b, ref, steps=[dict(spec parts, copies, trailing, dest, seps)])"""
+    t, b, ref = h['t'], mbf.unhx(h['b']), h['ref']
+    bad, outs, lines = [], [], []
+    r = impl.assign(ref, t, b)
+    if r:
+        return outs, lines, [('variable:assign', 'assignment to %s gives %r' % (ref, r))]
+    before = impl.readback(ref, t)
+    if before != b:
+        return outs, lines, [('variable:assign', '%s holds %r after assigning %r' % (ref, before, b))]
+    for n, st in enumerate(h['steps']):
+        spec = Spec(*st['spec'])
+        k = st['copies']
+        dest = st['dest']
+        out = impl.run(spec.text, [(t, b)] * k, st['trailing'], dest == 'file', st['seps'], refs=[ref] * k,
+                       lprint=(dest == 'lprint'))
+        if out.startswith('exc') or out.startswith('odd'):
+            bad.append(('host-exception', 'PRINT USING %r; %s gives %s' % (spec.text, ref, out)))
+        elif dest != 'lprint':
+            outs.append(out)
+            lines.append(model_line(spec.text, [(t, b)] * k, st['trailing']))
+            want = compose_alone(impl, cache, spec.text, (t, b), k, st['trailing'])
+            if want is not None and out != want:
+                bad.append(('variable:output', 'statement %d of the history, PRINT USING %r with the %s %s (holding %s) '
+                            '%d time(s), gives %s; the same number as an expression prints %s'
+                            % (n + 1, spec.text, 'array element' if '(' in ref else 'variable', ref,
+                               float(value(t, b)), k, out, want)))
+            kind, text, extra = parse_reply(out)
+            if kind == 'ok' and k == 1:
+                for key, what in check_numeric(spec, t, b, text):
+                    bad.append(('numeric:' + key + (':sci' if spec.caret else ':fix'), what))
+        now = impl.readback(ref, t)
+        if now != b:
+            bad.append(('variable:operand-modified', 'after statement %d of the history (%s USING %r; %s ...) %s holds the '
+                        'bytes %s, it was assigned %s: formatting changed its operand'
+                        % (n + 1, {'screen': 'PRINT', 'file': 'PRINT#1,', 'lprint': 'LPRINT'}[dest], spec.text, ref, ref,
+                           mbf.hx(now), mbf.hx(b))))
+            break
+    return outs, lines, bad
+
+
+def run_variables(ctx, impl, n):
+    """operands that are bare variables and array elements of all numeric types: the same variable several times in
+    one statement, again in later statements (screen, PRINT#, LPRINT), and read back afterwards"""
+    rng = ctx.rng
+    cases, lines, outs = [], [], []
+    cache = {}
+    for i in range(n):
+        spec = gen_spec(rng)
+        while spec.positions > 24:
+            spec = gen_spec(rng)
+        t, b = gen_number(rng, spec)
+        if t != 'i' and b[-1] != 0 and rng.random() < 0.4:
+            b = b[:-2] + bytes([b[-2] | 0x80]) + b[-1:]       # negative numbers are the interesting half
+        elif t == 'i' and rng.random() < 0.4:
+            b = struct.pack('<h', -abs(struct.unpack('<h', b)[0]) if b != b'\x00\x80' else -32768)
+        ref = rng.choice(VARS[t])
+        steps = []
+        for j in range(rng.choice([2, 2, 3])):
+            sp = spec if (j == 0 or rng.random() < 0.4) else gen_spec(rng)
+            while sp.positions > 24:
+                sp = gen_spec(rng)
+            copies = rng.choice([1, 2, 2, 3]) if j == 0 else rng.choice([1, 1, 2])
+            dest = rng.choice(['screen', 'screen', 'file', 'file', 'lprint'])
+            if dest == 'screen' and copies > 1 and (sp.width * copies > 40 or abs(value(t, b)) >= 10 ** 12):
+                dest = 'file'       # keep screen lines well below 80 columns (ASSUMPTIONS)
+            steps.append({'spec': sp.parts(), 'copies': copies, 'trailing': rng.random() < 0.25, 'dest': dest,
+                          'seps': [rng.choice(';;,') for _ in range(copies)]})
+        h = {'kind': 'variable', 't': t, 'b': mbf.hx(b), 'ref': ref, 'steps': steps}
+        ctx.case(('v', t, b, ref, repr(steps)))
+        ctx.count('variable:type:' + t)
+        ctx.count('variable:' + ('array-element' if '(' in ref else 'scalar'))
+        if signbit(t, b):
+            ctx.count('variable:negative')
+        for st in steps:
+            ctx.count('variable:dest:' + st['dest'])
+            if st['spec'][5]:
+                ctx.count('variable:scientific-step')
+        o, l, bad = variable_history(impl, h, cache)
+        for key, what in bad:
+            _fail(ctx, key, h, what)
+        cases += [h] * len(o)
+        outs += o
+        lines += l
+        if i % 97 == 0:
+            ctx.sample({'variable': ref, 'value': float(value(t, b)), 'steps': [[Spec(*st['spec']).text.decode(),
+                        st['copies'], st['dest']] for st in steps], 'impl': o})
+    ctx.compare(cases, outs, lines, 'variable')
+
+
 JUNK = b'++--$$$***###...,,^^^^^!&\\\\  __aZ%0'
 
 
@@ -700,6 +839,7 @@ def run(ctx):
         run_strings(ctx, impl, 700 if q else 8000)
         run_multi(ctx, impl, 700 if q else 8000)
         run_junk(ctx, impl, 800 if q else 8000)
+        run_variables(ctx, impl, 450 if q else 5000)
     finally:
         impl.close()
     ctx.notes.pop('_c08_classes', None)
@@ -726,6 +866,9 @@ def replay(ctx, payload):
             if k != 'ok':
                 return out
             bad = check_string(field, s, text)
+            return '; '.join(w for _, w in bad) or None
+        if kind == 'variable':
+            o, l, bad = variable_history(impl, case, {})
             return '; '.join(w for _, w in bad) or None
         if kind in ('multi', 'junk'):
             fmt = mbf.unhx(case['fmt'])
